@@ -60,6 +60,7 @@ def run(spec):
         kw["cache_dir"] = spec["cache_dir"]
     b = balancer(fresh=spec.get("fresh", False) or bool(spec.get("cache_dir")), **kw)
     b.confidence_threshold = spec.get("threshold", 0)
+    b.remove_aam = spec.get("remove_aam", True)
     stats = {}
     raised = None
     rows = None
